@@ -241,27 +241,35 @@ def mentions(x, word):
     return x == word
 
 
-def compute():
+def compute(repo=None, only=None):
     """-> pairs: one per (version-expanded message, side) with side in reader / writer; status same / differ / spec-unsupported /
-    rust-untranslated / no-reader / no-definition, detail"""
-    import codec_spec, rust_codec
-    r = codec_spec.NameResolver()
-    spec = {}
-    for c in r.spec_containers():
-        spec[(c["key"].split(":")[0], c["name"])] = c
-    tr = rust_codec.Translator()
-    rust_r, rust_w = {}, {}
-    for d in rust_codec.translate_all():
-        rust_r.setdefault((d["ctx"], d["rust_type"]), d)
-    for d in rust_codec.translate_all_writers(tr):
-        rust_w.setdefault((d["ctx"], d["rust_type"]), d)
+    rust-untranslated / no-reader / no-definition, detail.
+    `repo`: another tree than /repo (C07: the scratch copy the generator has just written into); `only`: predicate on message names"""
+    import codec_spec, rust_codec, wowm as wowm_mod
+    root = repo or REPO
+    saved = rust_codec.REPO
+    rust_codec.REPO = root
+    try:
+        r = codec_spec.NameResolver(wowm_mod.load_tree(os.path.join(root, "wow_message_parser/wowm")))
+        spec = {}
+        for c in r.spec_containers():
+            if only is None or only(c["name"]):
+                spec[(c["key"].split(":")[0], c["name"])] = c
+        tr = rust_codec.Translator()
+        rust_r, rust_w = {}, {}
+        for d in rust_codec.translate_all(tr, only):
+            rust_r.setdefault((d["ctx"], d["rust_type"]), d)
+        for d in rust_codec.translate_all_writers(tr, only):
+            rust_w.setdefault((d["ctx"], d["rust_type"]), d)
+    finally:
+        rust_codec.REPO = saved
     lines, pairs = [], []
     for k, c in sorted(spec.items()):
         if "tokens" in c:
             lines.append(f"container S|{c['key']} {c['opcode']} {' '.join(c['tokens'])}")
         for side, table in (("reader", rust_r), ("writer", rust_w)):
             rd = table.get(k)
-            p = {"side": side, "ctx": k[0], "name": k[1], "key": c["key"], "wowm": f"{os.path.relpath(c['file'], REPO)}:{c['line']}", "rust_file": rd["file"] if rd else None}
+            p = {"side": side, "ctx": k[0], "name": k[1], "key": c["key"], "wowm": f"{os.path.relpath(c['file'], root)}:{c['line']}", "rust_file": rd["file"] if rd else None}
             if rd is None:
                 p.update(status="no-reader", detail=f"no generated Rust type found for this message")
             elif "tokens" not in c:
@@ -348,6 +356,14 @@ def report(rep, pid, pairs):
             continue
         if p["status"] == "rust-untranslated" and ("ZlibDecoder" in p["detail"] or "SKIP_SERIALIZE_READ_PANIC" in p["detail"] or "decompressed_size" in p["detail"] or "size_uncompressed" in p["detail"]):
             outside[f"{p['side']} outside the translated subset: " + ("AddonArray placeholder (C03 known finding)" if "SKIP_SERIALIZE" in p["detail"] else "compressed")] += 1
+            continue
+        if p["status"] == "rust-untranslated" and "current_size of the endless array is a static sum" in p["detail"]:
+            # the reader of an endless array after a conditional computes the bytes read so far without the conditional members (C01's known finding,
+            # here found on the code itself)
+            if pid == "C01":
+                rep.violation("C01/endless-array-after-if/current_size", f"{p['key']}: {p['detail'][:300]}", {"container": p["key"], "rust_file": p.get("rust_file"), "difference": p["detail"]}, no_input=True)
+            else:
+                outside["reader with C01's known finding endless-array-after-if"] += 1
             continue
         owner, kind = classify(p)
         if pid == "C03":
